@@ -298,7 +298,10 @@ def forged_scenario(ex, F, unit, tier, holder, p=None, shift=None, key='sim'):
     p = p or P(ex)
     builder(sim, p)
     if sim.view(target).state_name != expect[target]:
-        raise Unsupported(f'situation {sname} did not reach {expect[target]} (got {sim.view(target).state_name})')
+        # the canonical, loss-free, in-order history did not bring the endpoint into the expected state for SOME initial sequence
+        # numbers: on the unchanged tree this never happens; it is a violation of C03 (open/synchronise/close) and of C12 (ISN independence)
+        sim.info = {'pre': {'state': sim.view(target).state_name}, 'flags': set(), 'stage': 'situation', 'p': p}
+        raise ScenarioBroken(sim, f'the loss-free in-order history "{sname}" left {target} in {sim.view(target).state_name} instead of {expect[target]} for some initial sequence numbers')
     pre = _snapshot_obs(sim, target)
     # the forged segment: ACK/RST/SYN/FIN fixed by the unit, PSH/URG symbolic, everything else symbolic
     rest = sym_int('f_pu', 8)
@@ -335,6 +338,12 @@ def forged_scenario(ex, F, unit, tier, holder, p=None, shift=None, key='sim'):
     sim.info['stage'] = 'done'
     return sim
 
+
+
+class ScenarioBroken(Exception):
+    def __init__(self, sim, desc):
+        Exception.__init__(self, desc)
+        self.sim, self.desc = sim, desc
 
 
 class UnitResult:
@@ -390,7 +399,11 @@ def run_forged_unit(ex, F, unit, res, tier='quick', known_classes=None, deadline
     holder = {}
 
     def body(ex):
-        return forged_scenario(ex, F, unit, tier, holder)
+        try:
+            return forged_scenario(ex, F, unit, tier, holder)
+        except ScenarioBroken as b:
+            res.violations.append(mk_violation(ex, b.sim, unit, 'c03:c12:canonical-history-wrong-state', b.desc, 'c03'))
+            raise PathEnd()
 
     def on_end(ex, kind, r):
         res.paths += 1
@@ -648,12 +661,20 @@ def run_shift_unit(ex, F, unit, res, tier='quick', deadline=None):
         k = {'A': sym_int('k1', 32), 'B': sym_int('k2', 32)}
         p1 = P(ex)
         p1.concrete_data = True
-        sim1 = forged_scenario(ex, F, unit, tier, holder, p=p1, key='sim1')
+        try:
+            sim1 = forged_scenario(ex, F, unit, tier, holder, p=p1, key='sim1')
+        except ScenarioBroken as b:
+            res.violations.append(mk_violation(ex, b.sim, unit, 'c03:c12:canonical-history-wrong-state', b.desc, 'c12'))
+            raise PathEnd()
         p2 = P(ex, issA=ex.binop('Add', p1.issA, k['A'], False), issB=ex.binop('Add', p1.issB, k['B'], False))
         p2.concrete_data = True
         holder['k'] = k
         # forged segment travels peer -> target: its seq lives in the peer's sequence space, its ack in the target's
-        sim2 = forged_scenario(ex, F, unit, tier, holder, p=p2, shift=(k[peer], k[target]), key='sim2')
+        try:
+            sim2 = forged_scenario(ex, F, unit, tier, holder, p=p2, shift=(k[peer], k[target]), key='sim2')
+        except ScenarioBroken as b:
+            res.violations.append(mk_violation(ex, b.sim, unit, 'c03:c12:canonical-history-wrong-state', b.desc + ' (run with shifted ISNs)', 'c12'))
+            raise PathEnd()
         return (sim1, sim2)
 
     def on_end(ex, kind, r):
